@@ -430,13 +430,13 @@ def to_ball(theta, is_real:bool=True):
     '''
     if isinstance(theta, torch.Tensor):
         tmp0 = torch.linalg.norm(theta, dim=-1, keepdims=True)
-        ret = theta * (tmp0 / (1+tmp0))
+        ret = theta / (1+tmp0) #norm(ret)=norm(theta)/(1+norm(theta))<1
         if not is_real:
             tmp0 = theta.shape[-1]//2
             ret = torch.complex(ret[...,:tmp0], ret[...,tmp0:])
     else:
         tmp0 = np.linalg.norm(theta, axis=-1, keepdims=True)
-        ret = theta * (tmp0 / (1+tmp0))
+        ret = theta / (1+tmp0) #norm(ret)=norm(theta)/(1+norm(theta))<1
         if not is_real:
             tmp0 = theta.shape[-1]//2
             ret = ret[...,:tmp0] + 1j* ret[...,tmp0:]
